@@ -172,6 +172,9 @@ def judge_call(b, svc, method, cmd, obs):
         if mm and payload and payload.get(mm.group(1)) == "":
             return [("request/%s/required-empty-string-reported-missing" % {"query string": "query"}.get(mm.group(2), mm.group(2)),
                      "%s: required attribute %s carried in the %s with value \"\" is answered missing_field" % (name, mm.group(1), mm.group(2)))]
+        if mm and payload and payload.get(mm.group(1)) in ([], {}):
+            return [("request/%s/required-empty-collection-reported-missing" % {"query string": "query"}.get(mm.group(2), mm.group(2)),
+                     "%s: required attribute %s carried in the %s as an empty array/map is answered missing_field (nothing is written for it)" % (name, mm.group(1), mm.group(2)))]
         for k, l in locs.items():
             v = (payload or {}).get(k)
             if l == "cookie" and isinstance(v, str) and not COOKIE_OCTET.match(v):
